@@ -18,7 +18,8 @@ allc = ["C%02d" % i for i in range(1, 21)]
 rng = random.Random(7)
 out = open(os.path.join(root, "matrix.jsonl"), "w")
 names = sorted(os.listdir(os.path.join(root, "seeded")))
-only = sys.argv[1:] 
+owners_only = "--owners-only" in sys.argv
+only = [a for a in sys.argv[1:] if not a.startswith("--")]
 for name in names:
     if only and name not in only:
         continue
@@ -26,7 +27,7 @@ for name in names:
     owner = name.split("-")[0]
     others = [c for c in allc if c != owner]
     sample = ["C01", "C02", "C12", "C15"] + rng.sample(others, 4)
-    sample = [owner] + [c for c in dict.fromkeys(sample) if c != owner]
+    sample = [owner] + ([] if owners_only else [c for c in dict.fromkeys(sample) if c != owner])
     subprocess.run(["git", "-C", repo, "checkout", "--", "."])
     p = subprocess.run(["git", "-C", repo, "apply", os.path.join(d, "patch.diff")])
     if p.returncode != 0:
